@@ -326,6 +326,34 @@ def run(ctx):
                            "instead of being answered with an error" % (
                                "opened" if "mailbox" in e["attr"] else "claimed", flag,
                                name_attrs[e["attr"]]))
+    # "is a name remembered?" is a None test: the empty string is a legal
+    # identifier, and a truthiness test takes it for "nothing remembered"
+    def _truthy_tests(t):
+        while t[0] in ("not", "truth"):
+            t = t[1]
+        if t[0] == "and" or t[0] == "or":
+            for x in t[1]:
+                for y in _truthy_tests(x):
+                    yield y
+        elif t[0] == "attr" and t[1][0] == "obj" and t[1][1] == "WebSocketServer" and \
+                t[2] in name_attrs:
+            yield t[2]
+    seen_tt = set()
+    for p in paths:
+        h = handler_of(p)
+        if not h:
+            continue
+        for (tt, b, site) in p.pc:
+            for a in _truthy_tests(tt):
+                if (a, site[:2]) in seen_tt:
+                    continue
+                seen_tt.add((a, site[:2]))
+                ctx.ob("R17.names", "%s tests %s for truth at line %d" % (h, a, site[1]),
+                       False, "%s:%d" % site[:2],
+                       "whether a name was claimed / opened is decided by the truth value of "
+                       "%s: a connection that claimed or opened the empty-string name is "
+                       "treated as having none, and a release / close naming something else "
+                       "is carried out instead of being answered with an error" % a)
     ctx.ob("R17.names", "remembered names: %s" % sorted(name_attrs), len(name_attrs) >= 2, "",
            "" if len(name_attrs) >= 2 else "expected the mismatch checks of release and close")
     # -- alive
@@ -335,6 +363,20 @@ def run(ctx):
         ctx.ob("R17.alive", "module %s never drops a connection" % mod.name, not bad,
                "%s:%d" % (mod.path, bad[0].lineno) if bad else mod.path,
                "" if not bad else "call of %s" % bad[0].attr)
+    # transport options fixed in the code: anything but the keep-alive pings
+    # restricts which well-formed frames are accepted (size limits make
+    # Autobahn fail the connection on a large `add`)
+    for mod in ctx.repo.modules.values():
+        for n in ast.walk(mod.tree):
+            if isinstance(n, ast.Call) and isinstance(n.func, ast.Attribute) and \
+                    n.func.attr == "setProtocolOptions":
+                extra = [k.arg for k in n.keywords
+                         if k.arg is not None and not k.arg.startswith("autoPing")]
+                ctx.ob("R17.alive", "module %s: protocol options at line %d" % (
+                    mod.name, n.lineno), not extra, "%s:%d" % (mod.path, n.lineno),
+                    "" if not extra else "the server hard-codes %s: a well-formed command "
+                    "that exceeds the limit makes Autobahn drop the connection instead of "
+                    "being acknowledged and answered" % ", ".join(extra))
     # -- escape
     guard_ok = _allocate_guard_ok(ctx)
     nesc = 0
